@@ -1,7 +1,7 @@
 (* C09 - Triangle subdivision tiles the original surface. Statements only. *)
 From Coq Require Import List Arith QArith Qcanon Reals Qreals.
 From BZ Require Import Base.Ops Base.QcInst Base.RInst Model.Curve Model.Triangle Model.TrianglePy
-  Gen.PyTriangleHelpers Theory.TriBlossom Theory.TriTables.
+  Gen.PyTriangleHelpers Theory.TriBlossom Theory.TriTables Theory.TriLink Theory.TriLink2.
 Import ListNotations.
 
 (* blossoming theorem for triangles (index-function level): the net of blossom values
@@ -43,3 +43,21 @@ Theorem C09_weights_are_the_documented_quarters :
      ([1#2; 0; 1#2], [0; 1#2; 1#2], [0; 0; 1])]%Q.
 Proof. vm_compute. reflexivity. Qed.
 Print Assumptions C09_weights_are_the_documented_quarters.
+
+(* LIST LEVEL (the model that is run against the code): specialize_triangle returns the control net of
+   mu |-> B[v](mu1 a + mu2 b + mu3 c): every degree, every net with (d+1)(d+2)/2 nodes, all weights, any commutative ring *)
+Theorem C09_specialize_triangle_is_restriction :
+  forall (T : Type) (K : Ops T), ring_of K ->
+  forall (d : nat) (v : list T) (a b c : T * T * T) (m1 m2 m3 : T), length v = tri_size d ->
+  tri_bernstein K d (specialize_tri K d v a b c) m1 m2 m3
+  = let '(l1, l2, l3) := comb K m1 m2 m3 a b c in tri_bernstein K d v l1 l2 l3.
+Proof. exact @specialize_tri_correct. Qed.
+Print Assumptions C09_specialize_triangle_is_restriction.
+
+(* de Casteljau evaluation of a triangle = its bivariate Bernstein sum (links C05's definition to the blossoming theory) *)
+Theorem C09_de_casteljau_is_bernstein :
+  forall (T : Type) (K : Ops T), ring_of K ->
+  forall (d : nat) (v : list T) (l1 l2 l3 : T), wf_flat d v ->
+  tri_dc_eval K d v (l1, l2, l3) = tri_bernstein K d v l1 l2 l3.
+Proof. exact @tri_dc_eval_is_bernstein. Qed.
+Print Assumptions C09_de_casteljau_is_bernstein.
